@@ -508,6 +508,62 @@ fn gen(rng: &mut Rng, n: usize, _tier: &str) -> Vec<String> {
         let maxc = *rng.pick(&[1usize, 1, 2, 3, 5]);
         out.push(show_case(&Case { maxc, facts, rules, ops }));
     }
+    // focus-history family: long set/pop/clear/activate histories with repeated groups (the focus stack must
+    // hold each group once; a duplicate only shows after re-focusing a buried group and popping twice)
+    for _ in 0..n / 8 {
+        let nf = 3u64;
+        let ngroups = rng.range(2, 4);
+        let nr = rng.range(2, 5);
+        let mut rules: Vec<RuleSpec> = (0..nr).map(|i| gen_rule(rng, i, nf, ngroups, 0)).collect();
+        for (i, r) in rules.iter_mut().enumerate() {
+            r.flags |= 1;
+            r.eff = None;
+            r.exp = None;
+            r.ag = Some(i as u64 % ngroups);
+            r.cond = ('L', 0, 50);
+        }
+        let facts: Vec<Option<i64>> = (0..nf).map(|_| Some(rng.below(3) as i64)).collect();
+        let nops = rng.range(4, 9);
+        let mut ops = Vec::new();
+        for j in 0..nops {
+            let o = if j + 1 == nops {
+                if rng.chance(1, 2) { "C".to_string() } else { format!("X{}", rng.pick(&TIMES)) }
+            } else {
+                match rng.below(20) {
+                    0..=9 => format!("F{}", rng.below(ngroups)),
+                    10..=15 => "P".to_string(),
+                    16 => "Z".to_string(),
+                    17 => format!("V{}", rng.below(ngroups)),
+                    _ => format!("X{}", rng.pick(&TIMES)),
+                }
+            };
+            ops.push(o);
+        }
+        out.push(show_case(&Case { maxc: 1, facts, rules, ops }));
+    }
+    // large-knowledge-base family: 20..48 rules with many salience ties added in non-monotone order
+    // (insertion order among equals must survive the sort for every size, not only for small vectors)
+    for _ in 0..(n / 60).max(8) {
+        let nf = 3u64;
+        let nr = rng.range(20, 48);
+        let sals = [10i64, 0, -5, 3];
+        let rules: Vec<RuleSpec> = (0..nr)
+            .map(|i| RuleSpec {
+                name: i,
+                sal: *rng.pick(&sals),
+                flags: 1,
+                ag: None,
+                actg: None,
+                eff: None,
+                exp: None,
+                cond: if rng.chance(4, 5) { ('L', 0, 50) } else { gen_cond(rng, nf) },
+                acts: vec![],
+            })
+            .collect();
+        let facts: Vec<Option<i64>> = (0..nf).map(|_| Some(rng.below(3) as i64)).collect();
+        let ops = vec![if rng.chance(1, 2) { "C".to_string() } else { format!("X{}", rng.pick(&TIMES)) }];
+        out.push(show_case(&Case { maxc: 1, facts, rules, ops }));
+    }
     out
 }
 
